@@ -58,7 +58,7 @@ Print Assumptions C01_conditionals_preserved.
    break and a failing exit test go behind the matching done; the first-iteration flag guards the increment), print what
    the source prints and leave the environment representing the final source environment.  fresh_flags: no variable of
    the program is spelled like a loop flag _fv<n>, a return register _rv<n> or a mangled local f<n>_x of a function that may
-   run (C10); loops opened before this code have numbers below klo.  Calls x = f(..), x := f(..) and f(..) with call-free
+   run (C10); loops opened before this code have numbers below klo.  Simultaneous assignments x, y = e1, e2 and the calls x = f(..), x, y = f(..), x := f(..) and f(..) with call-free
    arguments are statements of these programs too: scall is what a call does in the source, call what the script's
    function does (with pos its positional parameters), and call_refines says the latter refines the former - results in
    the return registers, the caller's variables still represented, protected flags and the names of later functions
